@@ -69,6 +69,15 @@ func shutdownChan(v ssa.Value) string {
 	return ""
 }
 
+// constTimer: the channel is time.After(k) / time.Tick(k) with a compile-time constant k.
+func constTimer(v ssa.Value) bool {
+	if call, ok := ssax.Strip(v).(*ssa.Call); ok && len(call.Call.Args) == 1 {
+		_, isConst := call.Call.Args[0].(*ssa.Const)
+		return isConst
+	}
+	return false
+}
+
 func c25(c *core.Ctx) {
 	initOwners(c)
 	c.Rule("C25.cancellable", "every goroutine started by the client side (packages opcua, monitor, and the client channel goroutines of uasc) can be stopped: each blocking select / receive reachable inside it has an arm on a shutdown signal (ctx.Done(), closing, disconnected, closed) or is a bounded timer wait; waits on the renewal gates are released by SecureChannel.close", 12)
@@ -118,18 +127,27 @@ func c25(c *core.Ctx) {
 						arm := ""
 						for _, st := range x.States {
 							if st.Dir == types.RecvOnly {
-								if s := shutdownChan(st.Chan); s != "" {
+								// a timer arm alone does not make the wait cancellable: its duration is a run-time
+								// quantity (75% of a token lifetime is 45 minutes by default), so the goroutine would
+								// outlive Close by that long. Only time.After(<constant>) is accepted as a bound.
+								if s := shutdownChan(st.Chan); s != "" && (s != "timer" || arm == "") {
+									if s == "timer" && !constTimer(st.Chan) {
+										continue
+									}
 									arm = s
 								}
 							}
 						}
-						c.Ob("C25.cancellable", fname(r.fn)+"·select in "+fname(f), pos(c, x), arm != "", "shutdown / timer arm: "+orNone(arm))
+						c.Ob("C25.cancellable", fname(r.fn)+"·select in "+fname(f), pos(c, x), arm != "", "shutdown arm (or constant-duration timer): "+orNone(arm))
 					case *ssa.UnOp:
 						if x.Op != token.ARROW {
 							continue
 						}
 						n++
 						s := shutdownChan(x.X)
+						if s == "timer" && !constTimer(x.X) {
+							s = ""
+						}
 						if s == "" {
 							// `for len(ch) > 0 { <-ch }`: a non-blocking drain
 							for _, fact := range ssax.FactsAt(x) {
